@@ -380,6 +380,14 @@ class _Analyzer:
         self.writes: Dict[tuple, Write] = {}
         self.returns: List[List[AV]] = []
         self.local_types: Dict[str, List[Tuple[str, str]]] = {}
+        # a parameter annotated with a class of the package is only ever that class (or a subclass)
+        for x in a.posonlyargs + a.args + a.kwonlyargs:
+            if x.annotation is not None:
+                d = dotted(x.annotation)
+                if d:
+                    r = prog.resolve_symbol(rel, d)
+                    if r and r[0] == "class":
+                        self.local_types[x.arg] = [(r[1], r[2])] + prog.subclasses(r[1], r[2])
         self.guard_stack: List[str] = []
         self.selfenv: Dict[str, AV] = {}
 
